@@ -20,6 +20,7 @@ fn main() {
         "compile" => drivers::misc::compile(&rest),
         "project" => drivers::misc::project(&rest),
         "genstats" => drivers::misc::genstats(&rest),
+        "c01" => drivers::c01::drive(&rest),
         "c02" => drivers::c02::drive(&rest),
         "c03" => drivers::c03::drive(&rest),
         "c04" => drivers::c04::drive(&rest),
